@@ -95,8 +95,8 @@ Fixpoint assoc_s {A} (k : string) (l : list (string * A)) : option A :=
 Definition manager_keeps (classes : list (string * idprog)) (m : idman) : bool :=
   match assoc_s (im_preserve m) classes with Some p => nid_ok p | None => false end.
 
-(** A constructor site: the method, the manager attribute it asks, whether the value it stores as the ID is the result of
-    get_id applied to the ID it was given (and nothing else). *)
+(** A constructor site: the method, the manager attribute it asks, whether the statement stores the answer of get_id (as it
+    is, or through str()) -- and does not compute with it or drop it. *)
 Record idsite := mk_idsite { is_method : string; is_manager : string; is_stores_result : bool }.
 
 Definition kind_ok (classes : list (string * idprog)) (mans : list idman) (sites : list idsite) (attr : string) : bool :=
